@@ -34,7 +34,32 @@ def judge(rec, props: tuple, case: dict, *, want=None, extra=None, key=None, sli
                       f"a well-formed chart was rejected with {harness.exc_str(out.exc)}; no event was produced for it",
                       rcase, f"rejected:{type(out.exc).__name__}")
         return out, None, None
-    ob = harness.obs(out.chart)
+    try:
+        ob = harness.obs(out.chart)
+    except Exception as e:  # noqa
+        # the observation reads documented public attributes the documented way (iteration, len, indexing, attribute access): a
+        # returned chart on which that raises does not show the data any property speaks about
+        import traceback
+
+        tb = traceback.extract_tb(e.__traceback__)
+        where = next((f"{f.filename.split('/')[-1]}:{f.lineno} {f.line}" for f in reversed(tb) if "/vmon/observe.py" in f.filename), "?")
+        rec.ev()
+        rec.violation("unreadable", f"reading the returned chart's public attributes raised {harness.exc_str(e)} at {where}", rcase,
+                      f"chart-not-readable:{type(e).__name__}")
+        return out, None, None
+    if len(case["text"]) < 12000 and len(case["text"]) % 2:
+        # the public sequences are sequences: reading everything a SECOND time, and len() / first / last / slice / `in` / reversed on
+        # each event list, must show the same events (a lazily produced or one-shot attribute shows them once)
+        try:
+            again = harness.obs(out.chart) == ob and sequences_ok(out.chart)
+        except Exception as e:  # noqa
+            again = f"raised {harness.exc_str(e)}"
+        rec.ev()
+        if again is not True:
+            rec.violation("unreadable", "the returned chart's public event sequences do not behave like sequences: "
+                          + (again if isinstance(again, str) else "a second reading of the same attributes shows other data than the first"),
+                          rcase, "chart-sequences-not-stable")
+            return out, None, None
     d = model.compare(case["truth"], ob)
     n = sum(d.evals.get(p, 0) for p in props)
     rec.ev(n)
@@ -54,6 +79,27 @@ def judge(rec, props: tuple, case: dict, *, want=None, extra=None, key=None, sli
     if d.skipped_over_limit:
         rec.mon("times_at_or_above_1e6_s_skipped", d.skipped_over_limit)
     return out, ob, d
+
+
+def sequences_ok(chart):
+    st, ge = chart.sync_track, chart.global_events_track
+    seqs = [("time_signature_events", st.time_signature_events), ("anchor_events", st.anchor_events), ("bpm_events", st.bpm_events),
+            ("text_events", ge.text_events), ("section_events", ge.section_events), ("lyric_events", ge.lyric_events)]
+    for m in chart.instrument_tracks.values():
+        for tr in m.values():
+            seqs += [("note_events", tr.note_events), ("star_power_events", tr.star_power_events), ("track_events", tr.track_events)]
+    for name, sq in seqs:
+        items = [e for e in sq]
+        if len(sq) != len(items):
+            return f"len({name}) = {len(sq)} but iteration yields {len(items)} events"
+        if items:
+            if sq[0] != items[0] or sq[-1] != items[-1] or sq[len(items) - 1] != items[-1]:
+                return f"{name}[0] / [-1] are not the first / last event of its iteration"
+            if list(sq[0:2]) != items[0:2] or list(reversed(sq)) != items[::-1] or items[-1] not in sq:
+                return f"{name}: slicing / reversed / membership disagree with iteration"
+        if [e for e in sq] != items:
+            return f"{name}: a second iteration yields other events than the first"
+    return True
 
 
 def replay_case(rec, props: tuple, case: dict, extra=None):
